@@ -754,10 +754,11 @@ def C19_sig_read_total_full : Prop :=
     Res.panic ∉ ((run (init progs) sched).ps i).results
 
 /-- **F-C19-4**: `Plain::try_new` takes the value lock with `try_read`, so a `get` on one thread
-while another thread is inside a write (here: holds the `WriteGuard`) finds the lock taken, yields
-`None`, and `Get::get` panics "tried to access a reactive value that has already been disposed".
-(The model makes `set` one atomic step, so it only shows the race with a user-held guard; on the
-real code the window also exists inside every `set` — the free-running stress hit it.)
+while another thread is inside a write — here inside `sig.update(|n| …)`, whose closure runs with
+the lock write-held — finds the lock taken, yields `None`, and `Get::get` panics "tried to access a
+reactive value that has already been disposed".  (The model makes `set` one atomic step, so it
+shows the race only against an update whose closure spans a schedule entry; on the real code the
+window also exists inside every `set` — the free-running set/get stress hit it.)
 Replayed on the real code by corpus/C19/f-c19-4.ops. -/
 theorem C19_sig_read_during_write_witness :
     ((run (init [[.holdWrite 5, .unhold], [.read]]) [0, 1, 1]).ps 1).results = [.panic] := by decide
